@@ -6,6 +6,7 @@
   the theorems are inductions over the fuel that use only the two phase specifications.
 -/
 import KestrelModel.Chunks
+import KestrelModel.File
 import KestrelProofs.IOBasics
 namespace Kestrel
 
@@ -790,7 +791,7 @@ theorem decLoopIO_ok_consumed (A : Aead) (key aad : Bytes) (cs : Nat) : ∀ (fue
                   rw [List.drop_drop]; congr 1; omega
         cases last with
         | true =>
-          simp only [if_true, Prod.mk.injEq] at hIO
+          simp only [if_true, Prod.mk.injEq, true_and] at hIO
           obtain ⟨rfl, rfl⟩ := hIO
           refine ⟨s.inp.length - rest'.length, [pt], by omega, by omega, by rw [hi3, hdrop], ?_, by simp [ho, hpt rfl]⟩
           intro fuel0 hf0
@@ -804,7 +805,7 @@ theorem decLoopIO_ok_consumed (A : Aead) (key aad : Bytes) (cs : Nat) : ∀ (fue
           obtain ⟨n1, ws1, h1, h2, h3, h4, h5⟩ := ih (ctr+1) s3 k2 s' k' (by rw [hi3]; omega) hIO
           rw [hi3] at h2 h3 h4
           refine ⟨s.inp.length - rest'.length + n1, pt :: ws1, by omega, by omega, ?_, ?_, by rw [h5, ho, hpt rfl]; simp⟩
-          · rw [h3, ← hdrop, List.drop_drop]
+          · rw [h3, ← List.drop_drop, hdrop]
           · intro fuel0 hf0
             obtain ⟨f0, rfl⟩ : ∃ f0, fuel0 = f0 + 1 := ⟨fuel0 - 1, by omega⟩
             rw [decLoop_succ, parse1_take hp1 n1]
@@ -912,14 +913,14 @@ theorem decLoopIO_log (A : Aead) (hA : A.Lawful) (key aad : Bytes) (hk : key.len
         intro e he
         rw [← hs3]; exact (hLat e (List.mem_reverse.mp he)).1
       have hsum : (L.reverse.map (·.n)).sum = p.length := by
-        rw [← hLsum, ← List.map_reverse, List.sum_reverse]
+        rw [← hLsum, List.map_reverse, List.sum_reverse_nat]
       -- the run stops after this chunk
       have hstop : ∀ ws1, k'.log = k2.log → k'.out = k2.out →
           ∃ segs : List (List WLog), k'.log = segs.flatten.reverse ++ k.log ∧ LogSegs s.pos (pt :: ws1) segs ∧
             k'.out.length = k.out.length + (segs.flatten.map (·.n)).sum := by
         intro ws1 hl1 ho1
-        refine ⟨[L.reverse], by rw [hl1, hlog]; simp, ?_, by rw [ho1, ho]; simp [hsum]⟩
-        simp only [LogSegs, ne_eq, not_true_eq_false, false_implies, and_true, true_and]
+        refine ⟨[L.reverse], by rw [hl1, hlog]; simp, ?_, by rw [ho1, ho]; simp [hLsum]⟩
+        simp only [LogSegs, ne_eq, not_true_eq_false, false_implies, and_true]
         exact ⟨hseg, by rw [hsum]; exact hple⟩
       cases last with
       | true =>
@@ -967,5 +968,172 @@ theorem decLoopIO_order (A : Aead) (hA : A.Lawful) (key aad : Bytes) (hk : key.l
   obtain ⟨segs, h1, h2, h3⟩ := decLoopIO_log A hA key aad hk cs fuel fuel0 ctr s k res s' k' ws pres hnf hf hf0 hIO hP
   obtain ⟨h4, h5⟩ := LogSegs.index ws segs s.pos h2
   exact ⟨segs, h1, h4, h3, h5⟩
+
+/-! ### a whole-chunk prefix plus a partial chunk is a byte prefix -/
+
+theorem take_flatten_prefix (ws : List Bytes) (j : Nat) (q : Bytes)
+    (h : q = [] ∨ ∃ w, ws[j]? = some w ∧ q <+: w) : (ws.take j).flatten ++ q <+: ws.flatten := by
+  rcases h with rfl | ⟨w, hw, t, ht⟩
+  · exact ⟨(ws.drop j).flatten, by rw [List.append_nil, ← List.flatten_append, List.take_append_drop]⟩
+  · obtain ⟨hj, hwj⟩ := List.getElem?_eq_some_iff.mp hw
+    refine ⟨t ++ (ws.drop (j+1)).flatten, ?_⟩
+    have h1 : ws = ws.take j ++ w :: ws.drop (j+1) := by
+      rw [← hwj, ← List.drop_eq_getElem_cons hj, List.take_append_drop]
+    conv => rhs; rw [h1]
+    rw [List.flatten_append, List.flatten_cons, ← ht]
+    simp only [List.append_assoc]
+
+/-! ### the entry points: everything before the chunk stream is `read_exact` -/
+
+open Generated in
+/-- `key_decrypt`, ALL scripts: either the call stops in the header — nothing is written, the result is the pure result
+    (`format`, `other`) or an `ioRead` that on a benign script means the file is truncated — or it reaches the chunk stream
+    with the source standing just past the 4 + 128 header bytes and both levels holding the same file key. -/
+theorem keyDecryptIO_cases {P : Prims} {r rpk : Bytes} {src s' : Src} {k k' : Snk} {res pres : Res} {snd psnd : Option Bytes}
+    {writes : List Bytes}
+    (hIO : keyDecryptIO P r rpk src k = (res, s', k', snd))
+    (hP : keyDecrypt P r rpk src.inp = (writes, pres, psnd)) :
+    (k' = k ∧ snd = none ∧ res ≠ .ok ∧ res ≠ .ioWrite ∧
+      ((res = pres ∧ psnd = none ∧ writes = [] ∧ res ≠ .ioRead) ∨
+       (res = .ioRead ∧ (src.benign → pres = .ioRead ∧ writes = [] ∧ psnd = none)))) ∨
+    (∃ (s2 : Src) (pk h spk : Bytes), s2.inp = (src.inp.drop 4).drop handshakeLen ∧ s2.pos = src.pos + 4 + handshakeLen ∧
+      4 + handshakeLen ≤ src.inp.length ∧ (∃ pre, src.script = pre ++ s2.script) ∧
+      decryptChunksIO P.aead (P.hkdfFile pk h) [] chunkSize s2 k = (res, s', k') ∧
+      decryptChunks P.aead (P.hkdfFile pk h) [] chunkSize s2.inp = (writes, pres) ∧
+      snd = (if res = .ok then some spk else none) ∧ psnd = (if pres = .ok then some spk else none)) := by
+  unfold keyDecryptIO at hIO
+  unfold keyDecrypt at hP
+  split at hIO
+  · -- magic: read failed
+    rename_i s1 h4
+    simp only [Prod.mk.injEq] at hIO; obtain ⟨rfl, rfl, rfl, rfl⟩ := hIO
+    refine Or.inl ⟨rfl, rfl, by simp, by simp, Or.inr ⟨rfl, fun hb => ?_⟩⟩
+    have hl := Src.readExact_none_benign hb (Nat.le_refl _) h4
+    rw [if_pos hl] at hP
+    simp only [Prod.mk.injEq] at hP; obtain ⟨rfl, rfl, rfl⟩ := hP
+    exact ⟨rfl, rfl, rfl⟩
+  · rename_i magic s1 h4
+    obtain ⟨hm, _, hi1, hp1, _, hsc1⟩ := Src.readExact_some _ _ _ _ _ h4
+    have hl4 : ¬ src.inp.length < 4 := Nat.not_lt.mpr (Src.readExact_some_len h4)
+    rw [if_neg hl4] at hP
+    subst hm
+    simp only at hP
+    split at hIO
+    · -- unknown magic
+      rename_i hv
+      rw [hv] at hP
+      simp only [Prod.mk.injEq] at hIO hP; obtain ⟨rfl, rfl, rfl, rfl⟩ := hIO; obtain ⟨rfl, rfl, rfl⟩ := hP
+      exact Or.inl ⟨rfl, rfl, by simp, by simp, Or.inl ⟨rfl, rfl, rfl, by simp⟩⟩
+    · -- password file given to key_decrypt
+      rename_i hv
+      rw [hv] at hP
+      simp only [Prod.mk.injEq] at hIO hP; obtain ⟨rfl, rfl, rfl, rfl⟩ := hIO; obtain ⟨rfl, rfl, rfl⟩ := hP
+      exact Or.inl ⟨rfl, rfl, by simp, by simp, Or.inl ⟨rfl, rfl, rfl, by simp⟩⟩
+    · rename_i hv
+      rw [hv] at hP
+      simp only at hP
+      split at hIO
+      · -- handshake: read failed
+        rename_i s2 hhs
+        simp only [Prod.mk.injEq] at hIO; obtain ⟨rfl, rfl, rfl, rfl⟩ := hIO
+        refine Or.inl ⟨rfl, rfl, by simp, by simp, Or.inr ⟨rfl, fun hb => ?_⟩⟩
+        have hl := Src.readExact_none_benign (Src.benign_of_suffix hb hsc1) (Nat.le_refl _) hhs
+        rw [hi1] at hl
+        rw [if_pos hl] at hP
+        simp only [Prod.mk.injEq] at hP; obtain ⟨rfl, rfl, rfl⟩ := hP
+        exact ⟨rfl, rfl, rfl⟩
+      · rename_i msg s2 hhs
+        obtain ⟨hmsg, _, hi2, hp2, _, hsc2⟩ := Src.readExact_some _ _ _ _ _ hhs
+        have hlh : ¬ (src.inp.drop 4).length < handshakeLen := by
+          have := Src.readExact_some_len hhs
+          rw [hi1] at this; omega
+        rw [if_neg hlh] at hP
+        rw [hi1] at hmsg hi2
+        subst hmsg
+        split at hIO
+        · -- handshake rejected
+          rename_i hrm
+          rw [hrm] at hP
+          simp only [Prod.mk.injEq] at hIO hP; obtain ⟨rfl, rfl, rfl, rfl⟩ := hIO; obtain ⟨rfl, rfl, rfl⟩ := hP
+          exact Or.inl ⟨rfl, rfl, by simp, by simp, Or.inl ⟨rfl, rfl, rfl, by simp⟩⟩
+        · rename_i pk spk h hrm
+          rw [hrm] at hP
+          simp only at hP
+          split at hIO
+          · rename_i hpk
+            rw [if_pos hpk] at hP
+            simp only [Prod.mk.injEq] at hIO hP; obtain ⟨rfl, rfl, rfl, rfl⟩ := hIO; obtain ⟨rfl, rfl, rfl⟩ := hP
+            exact Or.inl ⟨rfl, rfl, by simp, by simp, Or.inl ⟨rfl, rfl, rfl, by simp⟩⟩
+          · rename_i hpk
+            rw [if_neg hpk] at hP
+            rcases hd : decryptChunksIO P.aead (P.hkdfFile pk h) [] chunkSize s2 k with ⟨res0, s30, k0⟩
+            rcases hpd : decryptChunks P.aead (P.hkdfFile pk h) [] chunkSize ((src.inp.drop 4).drop handshakeLen) with ⟨ws0, pres0⟩
+            rw [hd] at hIO
+            rw [hpd] at hP
+            simp only [Prod.mk.injEq] at hIO hP
+            obtain ⟨rfl, rfl, rfl, rfl⟩ := hIO; obtain ⟨rfl, rfl, rfl⟩ := hP
+            refine Or.inr ⟨s2, pk, h, spk, hi2, by omega, ?_, suffix_trans hsc1 hsc2, hd, by rw [hi2]; exact hpd, rfl, rfl⟩
+            simp only [List.length_drop] at hlh; omega
+
+open Generated in
+/-- `pass_decrypt`, ALL scripts: as `keyDecryptIO_cases`, with a 4 + 32 byte header; the chunk key is derived from the
+    salt that was really read and the associated data is the magic. -/
+theorem passDecryptIO_cases {P : Prims} {pw : Bytes} {src s' : Src} {k k' : Snk} {res pres : Res} {writes : List Bytes}
+    (hIO : passDecryptIO P pw src k = (res, s', k'))
+    (hP : passDecrypt P pw src.inp = (writes, pres)) :
+    (k' = k ∧ res ≠ .ok ∧ res ≠ .ioWrite ∧
+      ((res = pres ∧ writes = [] ∧ res ≠ .ioRead) ∨
+       (res = .ioRead ∧ (src.benign → pres = .ioRead ∧ writes = [])))) ∨
+    (∃ (s2 : Src) (salt : Bytes), s2.inp = (src.inp.drop 4).drop 32 ∧ s2.pos = src.pos + 4 + 32 ∧
+      4 + 32 ≤ src.inp.length ∧ (∃ pre, src.script = pre ++ s2.script) ∧
+      decryptChunksIO P.aead (P.kdf pw salt) (src.inp.take 4) chunkSize s2 k = (res, s', k') ∧
+      decryptChunks P.aead (P.kdf pw salt) (src.inp.take 4) chunkSize s2.inp = (writes, pres)) := by
+  unfold passDecryptIO at hIO
+  unfold passDecrypt at hP
+  split at hIO
+  · rename_i s1 h4
+    simp only [Prod.mk.injEq] at hIO; obtain ⟨rfl, rfl, rfl⟩ := hIO
+    refine Or.inl ⟨rfl, by simp, by simp, Or.inr ⟨rfl, fun hb => ?_⟩⟩
+    have hl := Src.readExact_none_benign hb (Nat.le_refl _) h4
+    rw [if_pos hl] at hP
+    simp only [Prod.mk.injEq] at hP; obtain ⟨rfl, rfl⟩ := hP
+    exact ⟨rfl, rfl⟩
+  · rename_i magic s1 h4
+    obtain ⟨hm, _, hi1, hp1, _, hsc1⟩ := Src.readExact_some _ _ _ _ _ h4
+    have hl4 : ¬ src.inp.length < 4 := Nat.not_lt.mpr (Src.readExact_some_len h4)
+    rw [if_neg hl4] at hP
+    subst hm
+    simp only at hP
+    split at hIO
+    · rename_i hv
+      rw [hv] at hP
+      simp only [Prod.mk.injEq] at hIO hP; obtain ⟨rfl, rfl, rfl⟩ := hIO; obtain ⟨rfl, rfl⟩ := hP
+      exact Or.inl ⟨rfl, by simp, by simp, Or.inl ⟨rfl, rfl, by simp⟩⟩
+    · rename_i hv
+      rw [hv] at hP
+      simp only [Prod.mk.injEq] at hIO hP; obtain ⟨rfl, rfl, rfl⟩ := hIO; obtain ⟨rfl, rfl⟩ := hP
+      exact Or.inl ⟨rfl, by simp, by simp, Or.inl ⟨rfl, rfl, by simp⟩⟩
+    · rename_i hv
+      rw [hv] at hP
+      simp only at hP
+      split at hIO
+      · rename_i s2 hs
+        simp only [Prod.mk.injEq] at hIO; obtain ⟨rfl, rfl, rfl⟩ := hIO
+        refine Or.inl ⟨rfl, by simp, by simp, Or.inr ⟨rfl, fun hb => ?_⟩⟩
+        have hl := Src.readExact_none_benign (Src.benign_of_suffix hb hsc1) (Nat.le_refl _) hs
+        rw [hi1] at hl
+        rw [if_pos hl] at hP
+        simp only [Prod.mk.injEq] at hP; obtain ⟨rfl, rfl⟩ := hP
+        exact ⟨rfl, rfl⟩
+      · rename_i salt s2 hs
+        obtain ⟨hsalt, _, hi2, hp2, _, hsc2⟩ := Src.readExact_some _ _ _ _ _ hs
+        have hlh : ¬ (src.inp.drop 4).length < 32 := by
+          have := Src.readExact_some_len hs
+          rw [hi1] at this; omega
+        rw [if_neg hlh] at hP
+        rw [hi1] at hsalt hi2
+        subst hsalt
+        refine Or.inr ⟨s2, _, hi2, by omega, ?_, suffix_trans hsc1 hsc2, hIO, by rw [hi2]; exact hP⟩
+        simp only [List.length_drop] at hlh; omega
 
 end Kestrel
